@@ -86,3 +86,37 @@ Example C13_keys_example :
   rt_keys (fst (render current [leaf; grp; empty_grp])) = [KStr "b"; KStr "a"] /\
   nmsgs current (S (err_depth empty_grp)) 0 empty_grp = 0%nat.
 Proof. vm_compute. split; reflexivity. Qed.
+
+(* WHERE the messages are placed.  [rt_msgs q t] is the list of messages found at document path q: all but the last
+   element of q walk through the dicts that end the parent fields' lists, the last element selects the list.
+   One insertion appends to the list at its path and touches the list at no other path; hence a non-group error is
+   rendered as one message in the list at exactly its document path, and for any forest the list at ANY path is, in
+   order, what the recorded errors place there ([msgs_at], the statement's rule: a leaf one message at its path, an
+   *of error its own message at its path plus its definitions' errors, a group error its children's) *)
+Theorem C13_insertion_placement : forall p q m t, p <> [] ->
+  rt_msgs q (rt_insert p m t) = rt_msgs q t ++ (if path_dec q p then [m] else []).
+Proof. intros p q m t H. apply rt_insert_msgs. exact H. Qed.
+
+Theorem C13_leaf_message_at_its_path : forall e t,
+  is_logic (f_masks current) e = false -> is_group (f_masks current) e = false -> has_message current (e_code e) = true ->
+  e_dp e <> [] ->
+  rt_msgs (e_dp e) (add_error current t e) = rt_msgs (e_dp e) t ++ [mk_msg (last_key (e_dp e)) e] /\
+  (forall q, q <> e_dp e -> rt_msgs q (add_error current t e) = rt_msgs q t).
+Proof. exact (leaf_error_placed current). Qed.
+Print Assumptions C13_leaf_message_at_its_path.
+
+Theorem C13_placement : forall errs q, Forall (fun e => e_dp e <> []) errs ->
+  rt_msgs q (fst (render current errs)) =
+  flat_map (fun e => msgs_at current (S (err_depth e)) 0 None (rewrite current (S (err_depth e)) 0 e) q) errs.
+Proof. exact (render_msgs current). Qed.
+Print Assumptions C13_placement.
+
+Example C13_placement_example :
+  let top := Err [KStr "a"] (SP [KStr "a"; KStr "type"]) 36 (Some "type"%string) VNone VNone [] [] in
+  let sub := Err [KStr "a"; KStr "x"] (SP [KStr "a"; KStr "schema"; KStr "x"; KStr "min"]) 66 (Some "min"%string) VNone VNone [] [] in
+  let grp := Err [KStr "a"] (SP [KStr "a"; KStr "schema"]) 129 (Some "schema"%string) VNone VNone [] [sub] in
+  let t := fst (render current [top; grp]) in
+  rt_msgs [KStr "a"] t = [{| g_code := 36; g_field := Some (KStr "a") |}] /\
+  rt_msgs [KStr "a"; KStr "x"] t = [{| g_code := 66; g_field := Some (KStr "x") |}] /\
+  rt_msgs [KStr "x"] t = [].
+Proof. vm_compute. repeat split; reflexivity. Qed.
